@@ -30,7 +30,11 @@
 EXTENDS Integers, Sequences, FiniteSets, FiniteSetsExt, TLC
 
 CONSTANTS MaxNE,          \* one-exciton states 1..ne, ne <= MaxNE
-          TransferModes   \* subset of {"identity","population","coherence","all"}
+          TransferModes,  \* subset of {"identity","population","coherence","all"}
+          Variant         \* "code": the generators as they are.  Negative
+                          \* controls: "r3g-ordered" (a generator that skips
+                          \* half of its diagrams), "esa-side" (an interaction
+                          \* of R1f* put on the wrong side)
 
 VARIABLES ne, nf,
           b1,     \* bright ground <-> one-exciton transitions: subset of E
@@ -98,7 +102,8 @@ GenR3g == { P(<< <<i2e, 0>>, <<0, i2e>>, <<i4e, 0>>, <<0, i4e>> >>,
               <<-1, -1, 1, 1>>, << >>) :
             <<i2e, i4e>> \in
               { q \in E \X E : /\ Br(q[1], 0) /\ Br(0, q[1])
-                               /\ Br(q[2], 0) /\ Br(0, q[2]) } }
+                               /\ Br(q[2], 0) /\ Br(0, q[2])
+                               /\ (Variant = "r3g-ordered" => q[1] <= q[2]) } }
 
 GenR4g == { P(<< <<i2e, 0>>, <<0, i2e>>, <<i4e, 0>>, <<0, i4e>> >>,
               <<1, 1, 1, 1>>, << >>) :
@@ -107,7 +112,8 @@ GenR4g == { P(<< <<i2e, 0>>, <<0, i2e>>, <<i4e, 0>>, <<0, i4e>> >>,
                                /\ Br(q[2], 0) /\ Br(0, q[2]) } }
 
 GenR1f == { P(<< <<q[1], 0>>, <<q[2], 0>>, <<q[5], q[4]>>, <<q[3], q[5]>> >>,
-              <<-1, 1, 1, 1>>, <<q[4], q[3], q[2], q[1]>>) :
+              IF Variant = "esa-side" THEN <<-1, 1, -1, 1>> ELSE <<-1, 1, 1, 1>>,
+              <<q[4], q[3], q[2], q[1]>>) :
             q \in { q \in E \X E \X E \X E \X F :       \* i2e i3e i2d i3d i4f
                   /\ Br(q[1], 0) /\ Br(q[2], 0)
                   /\ <<q[4], q[3], q[2], q[1]>> \in tr
